@@ -26,29 +26,29 @@ const FarFuture = ^uint64(0)
 
 // P holds the preset and config numbers (copied from a zrnt Spec value: data, not logic).
 type P struct {
-	MAX_COMMITTEES_PER_SLOT, TARGET_COMMITTEE_SIZE, MAX_VALIDATORS_PER_COMMITTEE, SHUFFLE_ROUND_COUNT               uint64
-	HYSTERESIS_QUOTIENT, HYSTERESIS_DOWNWARD_MULTIPLIER, HYSTERESIS_UPWARD_MULTIPLIER                                uint64
-	MIN_DEPOSIT_AMOUNT, MAX_EFFECTIVE_BALANCE, EFFECTIVE_BALANCE_INCREMENT                                           uint64
-	MIN_ATTESTATION_INCLUSION_DELAY, SLOTS_PER_EPOCH, MIN_SEED_LOOKAHEAD, MAX_SEED_LOOKAHEAD                         uint64
-	EPOCHS_PER_ETH1_VOTING_PERIOD, SLOTS_PER_HISTORICAL_ROOT, MIN_EPOCHS_TO_INACTIVITY_PENALTY                       uint64
-	EPOCHS_PER_HISTORICAL_VECTOR, EPOCHS_PER_SLASHINGS_VECTOR, HISTORICAL_ROOTS_LIMIT, VALIDATOR_REGISTRY_LIMIT      uint64
-	BASE_REWARD_FACTOR, WHISTLEBLOWER_REWARD_QUOTIENT, PROPOSER_REWARD_QUOTIENT                                      uint64
-	INACTIVITY_PENALTY_QUOTIENT, MIN_SLASHING_PENALTY_QUOTIENT, PROPORTIONAL_SLASHING_MULTIPLIER                     uint64
-	MAX_PROPOSER_SLASHINGS, MAX_ATTESTER_SLASHINGS, MAX_ATTESTATIONS, MAX_DEPOSITS, MAX_VOLUNTARY_EXITS              uint64
+	MAX_COMMITTEES_PER_SLOT, TARGET_COMMITTEE_SIZE, MAX_VALIDATORS_PER_COMMITTEE, SHUFFLE_ROUND_COUNT                 uint64
+	HYSTERESIS_QUOTIENT, HYSTERESIS_DOWNWARD_MULTIPLIER, HYSTERESIS_UPWARD_MULTIPLIER                                 uint64
+	MIN_DEPOSIT_AMOUNT, MAX_EFFECTIVE_BALANCE, EFFECTIVE_BALANCE_INCREMENT                                            uint64
+	MIN_ATTESTATION_INCLUSION_DELAY, SLOTS_PER_EPOCH, MIN_SEED_LOOKAHEAD, MAX_SEED_LOOKAHEAD                          uint64
+	EPOCHS_PER_ETH1_VOTING_PERIOD, SLOTS_PER_HISTORICAL_ROOT, MIN_EPOCHS_TO_INACTIVITY_PENALTY                        uint64
+	EPOCHS_PER_HISTORICAL_VECTOR, EPOCHS_PER_SLASHINGS_VECTOR, HISTORICAL_ROOTS_LIMIT, VALIDATOR_REGISTRY_LIMIT       uint64
+	BASE_REWARD_FACTOR, WHISTLEBLOWER_REWARD_QUOTIENT, PROPOSER_REWARD_QUOTIENT                                       uint64
+	INACTIVITY_PENALTY_QUOTIENT, MIN_SLASHING_PENALTY_QUOTIENT, PROPORTIONAL_SLASHING_MULTIPLIER                      uint64
+	MAX_PROPOSER_SLASHINGS, MAX_ATTESTER_SLASHINGS, MAX_ATTESTATIONS, MAX_DEPOSITS, MAX_VOLUNTARY_EXITS               uint64
 	INACTIVITY_PENALTY_QUOTIENT_ALTAIR, MIN_SLASHING_PENALTY_QUOTIENT_ALTAIR, PROPORTIONAL_SLASHING_MULTIPLIER_ALTAIR uint64
-	SYNC_COMMITTEE_SIZE, EPOCHS_PER_SYNC_COMMITTEE_PERIOD                                                            uint64
-	INACTIVITY_PENALTY_QUOTIENT_BELLATRIX, MIN_SLASHING_PENALTY_QUOTIENT_BELLATRIX                                   uint64
-	PROPORTIONAL_SLASHING_MULTIPLIER_BELLATRIX                                                                       uint64
-	MAX_BYTES_PER_TRANSACTION, MAX_TRANSACTIONS_PER_PAYLOAD, BYTES_PER_LOGS_BLOOM, MAX_EXTRA_DATA_BYTES              uint64
-	MAX_BLS_TO_EXECUTION_CHANGES, MAX_WITHDRAWALS_PER_PAYLOAD, MAX_VALIDATORS_PER_WITHDRAWALS_SWEEP                  uint64
-	MAX_BLOB_COMMITMENTS_PER_BLOCK, MAX_BLOBS_PER_BLOCK                                                              uint64
+	SYNC_COMMITTEE_SIZE, EPOCHS_PER_SYNC_COMMITTEE_PERIOD                                                             uint64
+	INACTIVITY_PENALTY_QUOTIENT_BELLATRIX, MIN_SLASHING_PENALTY_QUOTIENT_BELLATRIX                                    uint64
+	PROPORTIONAL_SLASHING_MULTIPLIER_BELLATRIX                                                                        uint64
+	MAX_BYTES_PER_TRANSACTION, MAX_TRANSACTIONS_PER_PAYLOAD, BYTES_PER_LOGS_BLOOM, MAX_EXTRA_DATA_BYTES               uint64
+	MAX_BLS_TO_EXECUTION_CHANGES, MAX_WITHDRAWALS_PER_PAYLOAD, MAX_VALIDATORS_PER_WITHDRAWALS_SWEEP                   uint64
+	MAX_BLOB_COMMITMENTS_PER_BLOCK, MAX_BLOBS_PER_BLOCK                                                               uint64
 	// config
-	MIN_GENESIS_ACTIVE_VALIDATOR_COUNT, MIN_GENESIS_TIME, GENESIS_DELAY                                    uint64
-	SECONDS_PER_SLOT, MIN_VALIDATOR_WITHDRAWABILITY_DELAY, SHARD_COMMITTEE_PERIOD                          uint64
-	INACTIVITY_SCORE_BIAS, INACTIVITY_SCORE_RECOVERY_RATE, EJECTION_BALANCE                                uint64
-	MIN_PER_EPOCH_CHURN_LIMIT, CHURN_LIMIT_QUOTIENT, MAX_PER_EPOCH_ACTIVATION_CHURN_LIMIT                  uint64
-	ForkVersions                                                                                           [5][4]byte
-	ForkEpochs                                                                                             [5]uint64 // [0] = 0 (genesis)
+	MIN_GENESIS_ACTIVE_VALIDATOR_COUNT, MIN_GENESIS_TIME, GENESIS_DELAY                   uint64
+	SECONDS_PER_SLOT, MIN_VALIDATOR_WITHDRAWABILITY_DELAY, SHARD_COMMITTEE_PERIOD         uint64
+	INACTIVITY_SCORE_BIAS, INACTIVITY_SCORE_RECOVERY_RATE, EJECTION_BALANCE               uint64
+	MIN_PER_EPOCH_CHURN_LIMIT, CHURN_LIMIT_QUOTIENT, MAX_PER_EPOCH_ACTIVATION_CHURN_LIMIT uint64
+	ForkVersions                                                                          [5][4]byte
+	ForkEpochs                                                                            [5]uint64 // [0] = 0 (genesis)
 }
 
 func FromSpec(s *common.Spec) *P {
@@ -66,7 +66,7 @@ func FromSpec(s *common.Spec) *P {
 		SYNC_COMMITTEE_SIZE: uint64(s.SYNC_COMMITTEE_SIZE), EPOCHS_PER_SYNC_COMMITTEE_PERIOD: uint64(s.EPOCHS_PER_SYNC_COMMITTEE_PERIOD),
 		INACTIVITY_PENALTY_QUOTIENT_BELLATRIX: uint64(s.INACTIVITY_PENALTY_QUOTIENT_BELLATRIX), MIN_SLASHING_PENALTY_QUOTIENT_BELLATRIX: uint64(s.MIN_SLASHING_PENALTY_QUOTIENT_BELLATRIX),
 		PROPORTIONAL_SLASHING_MULTIPLIER_BELLATRIX: uint64(s.PROPORTIONAL_SLASHING_MULTIPLIER_BELLATRIX),
-		MAX_BYTES_PER_TRANSACTION: uint64(s.MAX_BYTES_PER_TRANSACTION), MAX_TRANSACTIONS_PER_PAYLOAD: uint64(s.MAX_TRANSACTIONS_PER_PAYLOAD), BYTES_PER_LOGS_BLOOM: uint64(s.BYTES_PER_LOGS_BLOOM), MAX_EXTRA_DATA_BYTES: uint64(s.MAX_EXTRA_DATA_BYTES),
+		MAX_BYTES_PER_TRANSACTION:                  uint64(s.MAX_BYTES_PER_TRANSACTION), MAX_TRANSACTIONS_PER_PAYLOAD: uint64(s.MAX_TRANSACTIONS_PER_PAYLOAD), BYTES_PER_LOGS_BLOOM: uint64(s.BYTES_PER_LOGS_BLOOM), MAX_EXTRA_DATA_BYTES: uint64(s.MAX_EXTRA_DATA_BYTES),
 		MAX_BLS_TO_EXECUTION_CHANGES: uint64(s.MAX_BLS_TO_EXECUTION_CHANGES), MAX_WITHDRAWALS_PER_PAYLOAD: uint64(s.MAX_WITHDRAWALS_PER_PAYLOAD), MAX_VALIDATORS_PER_WITHDRAWALS_SWEEP: uint64(s.MAX_VALIDATORS_PER_WITHDRAWALS_SWEEP),
 		MAX_BLOB_COMMITMENTS_PER_BLOCK: uint64(s.MAX_BLOB_COMMITMENTS_PER_BLOCK), MAX_BLOBS_PER_BLOCK: uint64(s.MAX_BLOBS_PER_BLOCK),
 		MIN_GENESIS_ACTIVE_VALIDATOR_COUNT: uint64(s.MIN_GENESIS_ACTIVE_VALIDATOR_COUNT), MIN_GENESIS_TIME: uint64(s.MIN_GENESIS_TIME), GENESIS_DELAY: uint64(s.GENESIS_DELAY),
@@ -314,9 +314,9 @@ type State struct {
 	PreviousEpochAttestations []PendingAttestation
 	CurrentEpochAttestations  []PendingAttestation
 	// altair+
-	PreviousEpochParticipation []uint8
-	CurrentEpochParticipation  []uint8
-	JustificationBits          []bool // 4
+	PreviousEpochParticipation  []uint8
+	CurrentEpochParticipation   []uint8
+	JustificationBits           []bool // 4
 	PreviousJustifiedCheckpoint Checkpoint
 	CurrentJustifiedCheckpoint  Checkpoint
 	FinalizedCheckpoint         Checkpoint
